@@ -7,42 +7,15 @@ import LokiModel.C17.Model
 * `Subroutine.__getstate__` drops `_ast`, `_parent`; `Module.__getstate__` drops `_ast`; `SymbolTable.__getstate__` drops `_parent`
   (re-linked by `_reset_parent` / `AttachScopes.visit_Scope`); `ProcedureType.__getstate__` drops `_procedure`;
   `TypedSymbol.__getinitargs__` stores scope `None` (and the local `_type`, which is `None` for an attached symbol).
-* `__setstate__`: `Subroutine` re-registers its members in its table and calls `rescope_symbols()` — it does NOT reset the members'
-  parent; `Module` resets the parent of contained subroutines, registers them, rescopes; `ScopedNode` keeps its table, its parent is
-  set by `AttachScopes.visit_Scope`.
-* what raises while unpickling (classes of inputs, decided on the exported heap by node labels the exporter sets):
-  an `Import` carrying a `DerivedTypeSymbol` (`AttachScopesMapper` has no `map_derived_type_symbol`: AssertionError),
-  a statement containing a `Cast` (pymbolic `__setstate__` sets the read-only property `name`: AttributeError).
+* `__setstate__`: `Subroutine` and `Module` reset the parent of their contained units, re-register them in their table and call
+  `rescope_symbols()` (`AttachScopesMapper` handles variable, deferred-type, derived-type and procedure symbols); `ScopedNode`
+  keeps its table, its parent is set by `AttachScopes.visit_Scope`; `Sourcefile`/`Module`/`Subroutine` get `_ast = None`.
+* a `Sourcefile` is the list of its top-level units.
 -/
 namespace LokiModel.C18
 open LokiModel.C17
 
-inductive Outcome where
-  | ok (h : Heap) (roots : List Addr)
-  | assertion        -- KnownImportDT
-  | attribute        -- KnownCast
-
-def hasLabelSuffix (h : Heap) (suf : String) : Bool :=
-  h.cells.any fun tc => tc.1 == 1 && match tc.2 with
-    | .node lbl _ _ _ => lbl.endsWith suf
-    | _ => false
-
-/-- known class `pickle-derived-type-import-crash` -/
-def KnownImportDT (h : Heap) : Bool := hasLabelSuffix h "!dt"
-/-- known class `pickle-cast-crash` -/
-def KnownCast (h : Heap) : Bool := hasLabelSuffix h "!cast"
-
-/-- known class `pickle-member-parent-lost`: a subroutine of the pickled tree has member procedures -/
-def KnownMemberLost (h : Heap) : Bool :=
-  h.cells.any fun tc => tc.1 == 1 && match tc.2 with
-    | .unit false _ _ _ _ mems => !mems.isEmpty
-    | _ => false
-
-def roundtrip (f : Nat) (h : Heap) (roots : List Addr) : Outcome :=
-  if KnownCast h then .attribute
-  else if KnownImportDT h then .assertion
-  else
-    let r := thread (fun h u => unpickle f h u) h roots
-    .ok r.1 r.2
+def roundtrip (f : Nat) (h : Heap) (roots : List Addr) : Heap × List Addr :=
+  thread (fun h u => unpickle f h u) h roots
 
 end LokiModel.C18
